@@ -5,6 +5,7 @@ package main
 // scenario catalogue with scheduler gates at the hook points (spec/MC_Conn.tla interleavings).
 
 import (
+	"bytes"
 	"fmt"
 	"math/rand"
 	"sync"
@@ -253,6 +254,91 @@ func init() {
 		}
 		close(done)
 		time.Sleep(300 * time.Millisecond) // late duplicate responses drain
+		// --- the terminals' scripted responders have stopped; two more scenarios are driven by hand
+		nextCmd := func(t *term, id int, d time.Duration) (int, bool) { // the serial of the next command frame with that id
+			dl := time.After(d)
+			for {
+				select {
+				case fr := <-t.recvCh:
+					if dv, _ := decodeView(fr); dv.Ok && dv.ID == id {
+						return dv.Serial, true
+					}
+				case <-dl:
+					return 0, false
+				}
+			}
+		}
+		// (a) 0x9003 is answered by 0x1003, which echoes no serial: with one command outstanding the caller gets it; with nothing
+		// outstanding the same message is ordinary traffic and gets its general reply
+		{
+			t := terms[0]
+			key := string(asciiDigits(t.phone))
+			attrs := []byte{1, 2, 3, 4, 0, 160, 1, 98, 2, 4}
+			resCh := make(chan cmdResult, 1)
+			k := int(kid.Add(1))
+			go func() {
+				resCh <- l.sendActive(t.idx, k, key, consts.P9003QueryTerminalAudioVideoProperties, nil, 2*time.Second)
+			}()
+			if _, ok := nextCmd(t, 0x9003, 3*time.Second); ok {
+				t.send(t.frame(0x1003, attrs))
+			}
+			<-resCh
+			time.Sleep(20 * time.Millisecond)
+			t.send(t.frame(0x1003, attrs))
+			time.Sleep(50 * time.Millisecond)
+		}
+		// (b) completions for callers that have left: the writer of terminal t is parked (by the clock) for longer than two callers
+		// wait; when it wakes it still writes their commands and their time-outs expire - results nobody waits for.  Meanwhile
+		// callers of another terminal are waiting: each of them gets the result of its own command only
+		if len(terms) >= 3 {
+			t, u := terms[1], terms[2]
+			tkey, ukey := string(asciiDigits(t.phone)), string(asciiDigits(u.phone))
+			var once atomic.Bool
+			hold := func(c int) {
+				if c == t.idx && !once.Swap(true) {
+					time.Sleep(1200 * time.Millisecond)
+				}
+			}
+			l.writeHold.Store(&hold)
+			t.send(t.frame(0x0002, nil))
+			time.Sleep(10 * time.Millisecond)
+			var wg sync.WaitGroup
+			for i := 0; i < 2; i++ {
+				wg.Add(1)
+				k := int(kid.Add(1))
+				go func() {
+					defer wg.Done()
+					l.sendActive(t.idx, k, tkey, consts.P8104QueryTerminalParams, nil, 50*time.Millisecond)
+				}()
+			}
+			wg.Wait() // both gave up at about 1.05 s; the writer wakes at 1.2 s, writes the two commands, their timers fire at 1.25 s
+			var ug sync.WaitGroup
+			const waiting = 80 // many callers waiting at once (whatever is pooled or recycled per call is in use by someone else now)
+			for i := 0; i < waiting; i++ {
+				ug.Add(1)
+				k := int(kid.Add(1))
+				go func() {
+					defer ug.Done()
+					l.sendActive(u.idx, k, ukey, consts.P8104QueryTerminalParams, nil, 2*time.Second)
+				}()
+				time.Sleep(400 * time.Microsecond)
+			}
+			var sers []int
+			for i := 0; i < waiting; i++ {
+				if ser, ok := nextCmd(u, 0x8104, 300*time.Millisecond); ok {
+					sers = append(sers, ser)
+				} else {
+					break // some were refused (queue full): fewer command frames than callers
+				}
+			}
+			time.Sleep(300 * time.Millisecond) // the stale completions of t happen now
+			for _, ser := range sers {
+				u.send(u.frame(0x0104, respBody(0x0104, ser, 0x8104)))
+			}
+			ug.Wait()
+			l.writeHold.Store(nil)
+			time.Sleep(100 * time.Millisecond)
+		}
 		for _, t := range terms {
 			// sentinel heartbeat: its reply closes the conversation
 			ser := 0
@@ -308,6 +394,7 @@ func init() {
 			{"command-sent-after-the-writer-exited-while-the-reader-is-still-in-stop", []gateRule{{"S.connClosed", "M.route.after"}}},
 			{"timeouts-expire-while-the-writer-is-held-in-a-callback", nil},
 			{"timeouts-of-different-lengths-in-adverse-order", nil},
+			{"burst-in-one-segment-then-reset", nil},
 			{"close-before-join", nil},
 			{"close-mid-frame", nil},
 			{"random-storm", nil},
@@ -481,6 +568,16 @@ func init() {
 					wg.Wait()
 					l.slackMs.Store(0)
 					t.close(false)
+				case "burst-in-one-segment-then-reset":
+					// the reader is still working through a batch it read in one piece while the writer's replies start to fail
+					join()
+					var burst []byte
+					for i := 0; i < 60; i++ {
+						burst = append(burst, t.frame([]int{0x0002, 0x0200, 0x0002}[i%3], randBytes(r, 28)[:28*(i%3%2)])...)
+					}
+					t.send(burst)
+					time.Sleep(time.Duration(r.Intn(800)) * time.Microsecond)
+					t.close(true)
 				case "close-before-join":
 					call(t, key, 100*time.Millisecond, &wg)
 					t.close(r.Intn(2) == 0)
@@ -669,5 +766,169 @@ func init() {
 		out.put(map[string]any{"firsts": firsts, "missing": missing, "frames": frames})
 		out.close()
 		t.close(false)
+	}
+}
+
+func init() {
+	// live-c13stall <out>: a terminal that never reads.  Commands with kilobyte bodies are sent to it until its writer is stuck
+	// in Write (the reader stays idle: the terminal sends nothing but its first heartbeat).  Three commands written early have
+	// time-outs that expire during the stall, commands without a time-out queue up behind the stuck writer, one more than the
+	// queue holds.  Then the terminal half-closes (variant "eof") or resets (variant "reset").  Observed: the manager keeps
+	// serving another terminal, every caller returns, and soon after the connection ended.
+	cmds["live-c13stall"] = func(a []string) {
+		l := startLive(liveOpts{})
+		out := newND(a[0])
+		defer out.close()
+		hp := []byte{0x01, 0x31, 0x00, 0x00, 0x07, 0x01}
+		h := l.dial(hp, 0)
+		hkey := string(asciiDigits(hp))
+		h.send(h.frame(0x0002, nil))
+		h.waitRecv(1, 5*time.Second)
+		for len(h.recvCh) > 0 {
+			<-h.recvCh
+		}
+		type res struct {
+			Name string `json:"name"`
+			Kind string `json:"kind"`
+			Ms   int64  `json:"ms"`   // since the call
+			Late int64  `json:"late"` // since the connection ended (-1: returned before)
+			Tmo  int    `json:"tmo"`
+		}
+		kid := 0
+		for vi, variant := range []string{"eof", "reset"} {
+			report := map[string]any{"ev": "stall", "variant": variant, "stalled": false, "manager_ok": false, "all_returned": false, "calls": 0, "results": []res{}}
+			finished := make(chan struct{})
+			go func() {
+				defer close(finished)
+				sp := []byte{0x01, 0x31, 0x00, 0x00, 0x07, byte(2 + vi)}
+				t := l.dialWith(sp, 0, true)
+				key := string(asciiDigits(sp))
+				var progress atomic.Int64
+				l.muted.Store(t.idx, &progress)
+				t.conn.Write(t.frame(0x0002, nil)) // joins; nothing else is ever sent, nothing is ever read
+				time.Sleep(60 * time.Millisecond)
+				var mu sync.Mutex
+				var results []res
+				var endedAt atomic.Int64
+				t0 := time.Now()
+				var wg sync.WaitGroup
+				calls := 0
+				call := func(name string, c int, k string, tmo time.Duration, body []byte) {
+					kid++
+					calls++
+					id := kid
+					wg.Add(1)
+					go func() {
+						defer wg.Done()
+						r := l.sendActive(c, id, k, consts.P8103SetTerminalParams, body, tmo)
+						late := int64(-1)
+						if e := endedAt.Load(); e > 0 {
+							late = time.Since(t0).Milliseconds() - e
+						}
+						tm := int(tmo / time.Millisecond)
+						if tmo < 0 {
+							tm = -1
+						}
+						mu.Lock()
+						results = append(results, res{name, r.Kind, r.Ms, late, tm})
+						mu.Unlock()
+					}()
+				}
+				// 1. three commands written at once, time-out 2.5 s: they expire while the writer is stuck
+				for i := 0; i < 3; i++ {
+					call("written-before-the-stall", t.idx, key, 2500*time.Millisecond, nil)
+				}
+				time.Sleep(20 * time.Millisecond)
+				// 2. kilobyte commands with a 5 ms time-out, one after the other, until one does not come back in time: the writer is stuck
+				big := bytes.Repeat([]byte{0x55}, 1000)
+				var stalledFlag atomic.Bool
+				var sent atomic.Int64
+				fill := map[string]int{}
+				var fmu sync.Mutex
+				var fw sync.WaitGroup
+				base := kid
+				kid += 12000
+				for w := 0; w < 3; w++ { // three callers at a time: as many as the terminal's queue holds
+					fw.Add(1)
+					go func(w int) {
+						defer fw.Done()
+						for !stalledFlag.Load() {
+							n := sent.Add(1)
+							if n > 12000 {
+								return
+							}
+							r := l.sendActive(t.idx, base+int(n), key, consts.P8103SetTerminalParams, big, time.Millisecond)
+							fmu.Lock()
+							fill[r.Kind]++
+							fmu.Unlock()
+							if r.Ms >= 700 {
+								stalledFlag.Store(true)
+							}
+						}
+					}(w)
+				}
+				fw.Wait()
+				stalled := stalledFlag.Load()
+				report["stalled"] = stalled
+				report["fill"] = fill
+				// 3. commands without a time-out queue up behind the stuck writer; the fourth does not fit
+				for i := 0; i < 4; i++ {
+					call("no-timeout-queued", t.idx, key, -1, nil)
+					time.Sleep(5 * time.Millisecond)
+				}
+				time.Sleep(100 * time.Millisecond)
+				// 4. the manager still serves the healthy terminal
+				probe := make(chan cmdResult, 1)
+				kid++
+				pk := kid
+				go func() {
+					probe <- l.sendActive(h.idx, pk, hkey, consts.P8104QueryTerminalParams, nil, 1500*time.Millisecond)
+				}()
+				before := h.nrecv.Load()
+				if h.waitRecv(before+1, 3*time.Second) {
+					var fr []byte
+					for len(h.recvCh) > 0 {
+						fr = <-h.recvCh
+					}
+					dv, _ := decodeView(fr)
+					h.send(h.frame(0x0104, respBody(0x0104, dv.Serial, 0x8104)))
+					select {
+					case r := <-probe:
+						report["manager_ok"] = r.Kind == "resp"
+					case <-time.After(3 * time.Second):
+					}
+				}
+				// 5. wait until the three early time-outs have expired inside the stall, then end the connection
+				if d := 3000*time.Millisecond - time.Since(t0); d > 0 {
+					time.Sleep(d)
+				}
+				endedAt.Store(time.Since(t0).Milliseconds())
+				if variant == "eof" {
+					t.conn.CloseWrite() // and still nothing is read: only the server's own teardown can free the writer
+				} else {
+					t.conn.SetLinger(0)
+					t.conn.Close()
+				}
+				done := make(chan struct{})
+				go func() { wg.Wait(); close(done) }()
+				select {
+				case <-done:
+					report["all_returned"] = true
+				case <-time.After(6 * time.Second):
+				}
+				mu.Lock()
+				report["results"] = append([]res{}, results...)
+				report["calls"] = calls
+				mu.Unlock()
+				t.conn.Close()
+			}()
+			select {
+			case <-finished:
+			case <-time.After(40 * time.Second):
+				report["hung"] = true // the scenario itself could not proceed (e.g. the manager is wedged): reported as it stands
+			}
+			out.put(report)
+		}
+		h.close(false)
 	}
 }
